@@ -41,6 +41,7 @@ SPEC = PropSpec(
 )
 
 MUTANTS = [
+    {"id": "left-and-right-outputs-share-one-dataset", "file": "pandora/state_machine.py", "old": "        self.left_disparity = xr.Dataset()\n        self.right_disparity = xr.Dataset()\n", "new": "        self.left_disparity = self.right_disparity = xr.Dataset()\n"},
     {"id": "swap-args-right-aggregation", "file": SM, "old": "aggregation_.cost_volume_aggregation(self.right_img, self.left_img, self.right_cv)", "new": "aggregation_.cost_volume_aggregation(self.left_img, self.right_img, self.right_cv)"},
     {"id": "right-cv_masked-with-left-interval", "file": SM, "old": "                self.right_cv,\n                self.right_disp_min,\n                self.right_disp_max,", "new": "                self.right_cv,\n                self.disp_min,\n                self.right_disp_max,"},
     {"id": "delete-right-refinement", "file": SM, "old": '        if self.right_disp_map == "cross_checking_accurate":\n            refinement_.subpixel_refinement(self.right_cv, self.right_disparity)\n', "new": ""},
